@@ -31,21 +31,67 @@ Definition rraw := (Z * bool * rmsg)%type.        (* peer, regular filter type, 
 Definition mk_raw (r : rraw) : rawresp :=
   let '(p, g, m) := r in {| r_peer := p; r_reg := g; r_msg := mk_msg m |}.
 
-(* environment rows: height, filters served, header ok, block ok, oracle rows
-   (filter token, GetFilterHash, VerifyBasicBlockFilter) *)
-Definition renvrow := (Z * list (Z * Z) * bool * bool * list (Z * Z * option Z))%type.
+(* abstract blocks: per transaction (outputs, inputs); an output script is
+   (token, length, first byte or -1, txscript parses it), an input is -1 (no
+   witness), -2 (no script derivable) or the token of the derived script *)
+Definition rscript := (Z * Z * Z * bool)%type.
+Definition rablock := list (list rscript * list Z).
+Definition mk_script (r : rscript) : ascript :=
+  let '(t, l, f, p) := r in {| sc_tok := t; sc_len := l; sc_first := f; sc_parses := p |}.
+Definition mk_in (z : Z) : ainput :=
+  if z =? -1 then INoWitness else if z <? 0 then INoScript else IScript z.
+Definition mk_blk (b : rablock) : ablock :=
+  List.map (fun tx : list rscript * list Z =>
+              {| tx_outs := List.map mk_script (fst tx); tx_ins := List.map mk_in (snd tx) |}) b.
+
+(* oracle rows of one block: filter token, GetFilterHash, the verdict of the
+   IMPLEMENTATION's VerifyBasicBlockFilter, and - the ground truth, obtained
+   without that function - the tokens of the block's scripts the filter
+   matches (gcs.Filter.Match evaluated by the harness on every script) *)
+Definition orow := (Z * Z * option Z * list Z)%type.
+Definition ofind (orc : list orow) (g : Z) : option orow :=
+  List.find (fun r : orow => let '(t, _, _, _) := r in t =? g) orc.
+Definition matched_of (orc : list orow) (g : Z) : Z -> bool :=
+  match ofind orc g with
+  | Some (_, _, _, ms) => fun s => mem s ms
+  | None => fun _ => false
+  end.
+Definition hash_of (orc : list orow) (g : Z) : Z :=
+  match ofind orc g with Some (_, h, _, _) => h | None => -7 end.
+
+(* the verdict oracle of the model is the MODEL of VerifyBasicBlockFilter on
+   the abstract block and the matched set, not the implementation's verdict *)
+Definition mk_fo (blk : ablock) (orc : list orow) : foracle :=
+  {| fo_hash := hash_of orc;
+     fo_verify := fun g => match ofind orc g with
+                           | Some _ => verify_filter blk (matched_of orc g)
+                           | None => None
+                           end |}.
+
+(* the implementation's verdicts against the model's *)
+Definition orc_diff (blk : ablock) (orc : list orow) : bool :=
+  List.existsb (fun r : orow =>
+    let '(_, _, v, ms) := r in
+    negb (match v, verify_filter blk (fun s => mem s ms) with
+          | Some a, Some b => a =? b | None, None => true | _, _ => false end)) orc.
+
+(* environment rows: height, filters served, header ok, block ok, the block,
+   oracle rows *)
+Definition renvrow := (Z * list (Z * Z) * bool * bool * rablock * list orow)%type.
 Definition frow (rows : list renvrow) (t : Z) : option renvrow :=
-  List.find (fun r : renvrow => let '(h, _, _, _, _) := r in h =? t) rows.
-Definition mk_fo (orc : list (Z * Z * option Z)) : foracle :=
-  {| fo_hash := fun f => match List.find (fun r : Z * Z * option Z => fst (fst r) =? f) orc with
-                         | Some r => snd (fst r) | None => -7 end;
-     fo_verify := fun f => match List.find (fun r : Z * Z * option Z => fst (fst r) =? f) orc with
-                           | Some r => snd r | None => None end |}.
+  List.find (fun r : renvrow => let '(h, _, _, _, _, _) := r in h =? t) rows.
 Definition mk_env (rows : list renvrow) : denv :=
-  {| e_filters := fun t => match frow rows t with Some (_, f, _, _, _) => f | None => [] end;
-     e_hdr_ok := fun t => match frow rows t with Some (_, _, b, _, _) => b | None => true end;
-     e_block_ok := fun t => match frow rows t with Some (_, _, _, b, _) => b | None => true end;
-     e_fo := fun t => match frow rows t with Some (_, _, _, _, o) => mk_fo o | None => mk_fo [] end |}.
+  {| e_filters := fun t => match frow rows t with Some (_, f, _, _, _, _) => f | None => [] end;
+     e_hdr_ok := fun t => match frow rows t with Some (_, _, b, _, _, _) => b | None => true end;
+     e_block_ok := fun t => match frow rows t with Some (_, _, _, b, _, _) => b | None => true end;
+     e_fo := fun t => match frow rows t with Some (_, _, _, _, b, o) => mk_fo (mk_blk b) o | None => mk_fo [] [] end |}.
+
+(* kind-1 rows (tag 10): heights at which the implementation's
+   VerifyBasicBlockFilter and the model disagree on some filter *)
+Definition verdict_diffs (id : Z) (rows : list renvrow) : list (Z * Z * Z * Z) :=
+  flat_map (fun r : renvrow =>
+    let '(t, _, _, _, b, o) := r in
+    if orc_diff (mk_blk b) o then [(id, 1, t, 10)] else []) rows.
 
 (* ---------- small helpers ---------- *)
 Definition opt_eqb {A} (f : A -> A -> bool) (a b : option A) : bool :=
@@ -182,26 +228,32 @@ Definition honest_raw (raws : list rawresp) (m : cfmsg) (p : Z) : bool :=
   | None => false
   end.
 
-(* the class hypotheses of Spec, evaluated at the heights that have a row
-   (every height at which a peer deviates from the truth, and every height
-   the implementation asked about, has one) *)
+(* the class hypotheses of Spec (good_idx_bip158), evaluated at the heights
+   that have a row (every height at which a peer deviates from the truth, and
+   every height the implementation asked about, has one).  The ground truth
+   is BIP-158 on the abstract block and the matched sets: NOT the verdicts of
+   the implementation's VerifyBasicBlockFilter. *)
 Definition rows_in_class (rows : list renvrow) (T : rtruth) (tm : cfmsg) (startH : Z) : bool :=
   List.forallb (fun r : renvrow =>
-    let '(t, filts, hok, bok, orc) := r in
+    let '(t, filts, hok, bok, rb, orc) := r in
     let i := t - startH in
     if (0 <=? i) && (i <? zlen (m_hashes tm)) then
-      let fo := mk_fo orc in
+      let blk := mk_blk rb in
       let tf := plook (rt_filt T) t in
       hok && bok &&
-      match fo_verify fo tf with Some 0 => true | _ => false end &&
-      opt_eqb Z.eqb (zget (m_hashes tm) i) (Some (fo_hash fo tf)) &&
+      match ofind orc tf with Some _ => true | None => false end &&
+      negb (omits_requiredb blk (matched_of orc tf)) &&
+      (opret_matches blk (matched_of orc tf) =? 0) &&
+      opt_eqb Z.eqb (zget (m_hashes tm) i) (Some (hash_of orc tf)) &&
       List.forallb (fun qg : Z * Z =>
-        (snd qg =? tf) || match fo_verify fo (snd qg) with None => true | Some _ => false end) filts
+        (snd qg =? tf) ||
+        (match ofind orc (snd qg) with Some _ => true | None => false end &&
+         omits_requiredb blk (matched_of orc (snd qg)))) filts
     else true) rows.
 
 Definition honest_rows (rows : list renvrow) (T : rtruth) (tm : cfmsg) (startH : Z) (p : Z) : bool :=
   List.forallb (fun r : renvrow =>
-    let '(t, filts, _, _, _) := r in
+    let '(t, filts, _, _, _, _) := r in
     let i := t - startH in
     if (0 <=? i) && (i <? zlen (m_hashes tm)) then
       opt_eqb Z.eqb (lookup p filts) (Some (plook (rt_filt T) t))
@@ -230,6 +282,7 @@ Definition u_verdict (id : Z) (ht : htab) (bl fl : runs) (raws : list rraw) (env
     end in
   (if Bool.eqb oerr merr && list_eqb obans (sort_set bans) && opt_eqb pair_eqb oftip mftip
    then [] else [(id, 1, 0, 0)]) ++
+  verdict_diffs id envr ++
   (* monitor *)
   match v_ftip v with
   | Some (ftip, fh) =>
@@ -270,6 +323,7 @@ Definition r_verdict (id : Z) (ht : htab) (bl fl : runs) (hard : list (Z * Z)) (
   let '(obans, ores) := ob in
   let ores' := option_map unruns ores in
   (if list_eqb obans (sort_set bans) && opt_eqb list_eqb ores' res then [] else [(id, 1, 0, 0)]) ++
+  verdict_diffs id envr ++
   (* monitor *)
   let tc := unruns tcps in
   let d_of := match check_sanity (remove_peers (List.map fst (List.filter (fun p => peer_hard_bad hardf (snd p)) cpl)) cpl) v with
@@ -343,7 +397,8 @@ Inductive auxrow :=
 | ASanity (cps : list (Z * list Z)) (fl : runs) (exp : Z)            (* -1 all agree, -2 error, i *)
 | AMinCp (cps : list (Z * Z)) (exp : Z)                              (* peer, list length *)
 | AMismatch (hs : list (Z * list Z)) (i : Z) (exp : bool)
-| AFromBlock (orc : list (Z * Z * option Z)) (filters : list (Z * Z)) (threshold : Z) (exp : option (list Z))
+| AFromBlock (blk : rablock) (orc : list orow) (filters : list (Z * Z)) (threshold : Z) (exp : option (list Z))
+| AVerifyFilter (blk : rablock) (matched : list Z) (exp : option Z)    (* VerifyBasicBlockFilter *)
 | AHard (hard : list (Z * Z)) (cp : list Z) (exp : bool)
 | AConsts (interval maxper perq : Z).
 
@@ -361,9 +416,11 @@ Definition aux_verdict (id : Z) (r : auxrow) : list (Z * Z * Z * Z) :=
   | AMismatch hs i e =>
     let l := List.map (fun p : Z * list Z => (fst p, {| m_prev := 0; m_stop := 0; m_hashes := snd p |})) hs in
     if Bool.eqb (mismatch_at l i) e then [] else [(id, 6, 0, 0)]
-  | AFromBlock orc filters th e =>
-    if opt_eqb list_eqb (option_map sort_set (resolve_from_block (mk_fo orc) filters th)) e
+  | AFromBlock blk orc filters th e =>
+    if opt_eqb list_eqb (option_map sort_set (resolve_from_block (mk_fo (mk_blk blk) orc) filters th)) e
     then [] else [(id, 7, 0, 0)]
+  | AVerifyFilter blk ms e =>
+    if opt_eqb Z.eqb (verify_filter (mk_blk blk) (fun s => mem s ms)) e then [] else [(id, 10, 0, 0)]
   | AHard hard cp e =>
     if Bool.eqb (peer_hard_bad (fun h => lookup h hard) cp) e then [] else [(id, 8, 0, 0)]
   | AConsts i m q =>
